@@ -378,7 +378,7 @@ RAW = {
 # ---- every optional request field of the state-changing operations at extreme values (dates, indices, texts, identifiers)
 EXTREME_DATES = [0, 1, -1, 2 ** 31 - 1, 2 ** 31, 2 ** 32, 2 ** 55, 2 ** 56, 2 ** 62, 2 ** 63 - 1, -2 ** 31, -2 ** 55, -2 ** 63]
 EXTREME_INDICES = [2 ** 31 - 1, -2 ** 31, 2 ** 16]
-EXTREME_TEXTS = {'empty': '', 'long': 'x' * 300, 'huge': 'y' * 6000}
+EXTREME_TEXTS = {'empty': '', 'long': 'x' * 300, 'huge': 'y' * 2500}
 EXTREME_UIDS = {'zero': '0', 'minus': '-1', 'beyond_int64': '99999999999999999999999', 'int64_max': str(2 ** 63 - 1), 'long_text': 'z' * 400,
                 'spaces': ' 1 ', 'float': '1e0'}
 KC = E.RevocationReasonCode.KEY_COMPROMISE
@@ -1425,12 +1425,17 @@ def gen_sweep(run, ctx):
         run.sweep([req([creators[first](), I_get(None, 'GET_ATTRIBUTES'), I_activate(), I_raw('encrypt_placeholder'), I_destroy(), I_get()], opt='CONTINUE')],
                   'sweep:creator users')
     # optional request fields at extreme values: the item alone, and between a creation and items that commit / read
-    for n in EXTREME:
-        run.sweep([req([I_raw(n)])], 'sweep:extreme single')
-        if quick and rng.random() < 0.5:
+    thorough_only = ('x_revoke_placeholder_date', 'x_modify_group_value', 'x_create_asi', 'x_ckp_name', 'x_delete_uid', 'x_create_policy')
+    order = [n for n in EXTREME if not (quick and n.startswith(thorough_only))]
+    rng.shuffle(order)
+    for k in range(0, len(order), 6):        # six of them in one Continue batch, a creation in front, a commit and a read behind
+        run.sweep([req([I_create(names=[115]), I_activate()] + [I_raw(n) for n in order[k:k + 6]] + [I_modify(9, 'AName', 0, 116), I_get(1, 'GET_ATTRIBUTES')],
+                       opt='CONTINUE')], 'sweep:extreme S S X X X X X S R')
+    for n in order:
+        if quick and rng.random() < 0.9:
             continue
-        run.sweep([req([I_create(names=[115]), I_activate(), I_raw(n), I_modify(9, 'AName', 0, 116), I_get(1, 'GET_ATTRIBUTES'), I_ro('LOCATE')], opt='CONTINUE')],
-                  'sweep:extreme S S X S R R')
+        run.sweep([req([I_raw(n)])], 'sweep:extreme single')
+        run.sweep([req([I_create(names=[117]), I_raw(n), I_ro('LOCATE')])], 'sweep:extreme S X R (Stop)')
     # Register of every storable object class, then identifier-less items and a Locate
     registers = [I_register(2, names=[110]), I_register(7, names=[111]), I_register(8, names=[112]), I_raw('register_certificate'),
                  I_raw('register_public_key'), I_raw('register_private_key'), I_raw('register_split_key')]
